@@ -122,6 +122,25 @@ def setget(h, mod, g, res, case):
     if not mod.weight.grad.is_contiguous():
         res.violation('set_grad left a non-contiguous weight gradient', case)
         return False
+    # the gradients change IN PLACE between two reads (zero_grad(set_to_none=False), accumulation into existing .grad, an
+    # optimizer/clipper scaling them): get_grad() must read what is stored now, not what it saw before
+    res.count('inplace_update_checks')
+    w0, b0 = wexp.clone(), M[:, -1].clone()   # (the stored gradients may be views of M: keep independent copies)
+    with torch.no_grad():
+        mod.weight.grad.mul_(-2.0)
+        if mod.bias is not None:
+            mod.bias.grad.add_(1.0)
+    exp = torch.cat([-2.0 * w0, (b0 + 1.0).view(-1, 1)], 1) if mod.bias is not None else -2.0 * w0
+    if not torch.equal(h.get_grad(), exp):
+        res.violation('get_grad() after the stored gradients were modified in place does not read the current gradients (it returned a stale combined matrix)', case)
+        return False
+    with torch.no_grad():
+        mod.weight.grad.zero_()
+        if mod.bias is not None:
+            mod.bias.grad.zero_()
+    if float(h.get_grad().abs().max()) != 0.0:
+        res.violation('get_grad() after an in-place zero_() of the gradients is not zero', case)
+        return False
     return True
 
 
